@@ -525,7 +525,23 @@ def parse_cbmc_text(path, res):
     fnset = set()
     cur_file, cur_fn = None, None
     rx = re.compile(r"^\[(?P<id>.+?)\] (?:line (?P<line>\d+) )?(?P<desc>.*): (?P<st>SUCCESS|FAILURE|UNKNOWN|ERROR)$")
-    for line in body.splitlines():
+    # a property's description may contain line breaks (multi-line assert! text, Kani's "please report" notes):
+    # join continuation lines until the status suffix is seen
+    joined, pending = [], None
+    for raw in body.splitlines():
+        if pending is not None:
+            pending += " " + raw.strip()
+            if re.search(r": (SUCCESS|FAILURE|UNKNOWN|ERROR)$", pending):
+                joined.append(pending)
+                pending = None
+            continue
+        if raw.startswith("[") and not re.search(r": (SUCCESS|FAILURE|UNKNOWN|ERROR)$", raw):
+            pending = raw
+            continue
+        joined.append(raw)
+    if pending is not None:
+        joined.append(pending)
+    for line in joined:
         if not line.startswith("["):
             m = re.match(r"^(?:(\S+) )?function (.+)$", line)
             if m:
